@@ -15,6 +15,8 @@
 package dmap
 
 import (
+	"bytes"
+	"fmt"
 	"time"
 
 	"github.com/olric-data/olric/internal/cluster/partitions"
@@ -71,6 +73,19 @@ func (s *Service) putCommandHandler(conn redcon.Conn, cmd redcon.Command) {
 	conn.WriteString(protocol.StatusOK)
 }
 
+// isEncodedEntry reports whether data is exactly one entry in the encoding of the DMap's storage engine.
+func (dm *DMap) isEncodedEntry(data []byte) (ok bool) {
+	defer func() {
+		// Decode has no error value: it panics on lengths which point outside of data.
+		if r := recover(); r != nil {
+			ok = false
+		}
+	}()
+	e := dm.engine.NewEntry()
+	e.Decode(data)
+	return bytes.Equal(e.Encode(), data)
+}
+
 func (s *Service) putEntryCommandHandler(conn redcon.Conn, cmd redcon.Command) {
 	putEntryCmd, err := protocol.ParsePutEntryCommand(cmd)
 	if err != nil {
@@ -81,6 +96,13 @@ func (s *Service) putEntryCommandHandler(conn redcon.Conn, cmd redcon.Command) {
 	dm, err := s.getOrCreateDMap(putEntryCmd.DMap)
 	if err != nil {
 		protocol.WriteError(conn, err)
+		return
+	}
+
+	// The payload is stored verbatim. If it is not a well-formed entry, every later read of the key
+	// takes lengths from garbage and panics.
+	if !dm.isEncodedEntry(putEntryCmd.Value) {
+		protocol.WriteError(conn, fmt.Errorf("%w: malformed entry", protocol.ErrInvalidArgument))
 		return
 	}
 
